@@ -109,13 +109,19 @@ Proof.
 Qed.
 Print Assumptions C08_cflags_ldflags_release_change_command.
 
-(* the heading must record the executed command: if it leaves the link options out, an edit of them alone
-   leaves the C file as it is (and the binary linked with the old options is served) *)
-Theorem C08_heading_must_cover_link_options :
-  forall gen hash ccinfo_of base rel dev l c,
-    text_of gen hash ccinfo_of base rel dev false (apply_edit (ELdflags l) c) = text_of gen hash ccinfo_of base rel dev false c.
-Proof. intros. apply link_edit_leaves_text_lemma. reflexivity. Qed.
-Print Assumptions C08_heading_must_cover_link_options.
+(* REFUTATION, in the "needed" form: the statement of C08_source_and_option_edits_show_in_text holds for
+   every behaviour ONLY IF the heading records the command that compile_binary executes.  (With a heading
+   that leaves the link options out, an edit of them alone changes which library is linked and nothing of
+   the C file: the binary linked with the old options is served; witness replayed every run, and the tie
+   fact "executed command = heading command" is observed on every build of the replayer.) *)
+Theorem C08_heading_covering_command_needed :
+  forall covers gen hash ccinfo_of base rel dev,
+    (forall exec e c, keeps_world e = true ->
+       behaviour gen exec base rel dev (apply_edit e c) <> behaviour gen exec base rel dev c ->
+       text_of gen hash ccinfo_of base rel dev covers (apply_edit e c) <> text_of gen hash ccinfo_of base rel dev covers c) ->
+    covers = true.
+Proof. exact heading_covering_command_needed_lemma. Qed.
+Print Assumptions C08_heading_covering_command_needed.
 
 (* THE DOCUMENTED LIMIT (outside the property's step kinds, a genuine stale artefact): an edit of what
    the C compiler reads besides the C file that the heading hash does not reflect leaves the text of the
